@@ -10,7 +10,7 @@ from ..cfg import build_cfg, calls_in, node_calls
 from ..core import Ctx, property_info, rule
 from ..jinja import outputs, template_files
 from ..model import AnalysisError, FuncInfo, norm_text, walk_no_nested
-from ..q import A, asrc, call_name_of, control_deps, forms, is_self_attr, kwarg, stores, unparse
+from ..q import A, asrc, call_name_of, control_deps, entry_conditions, flows, names_from_calls, forms, return_values, is_self_attr, kwarg, stores, unparse
 
 SCOPE = ("xsdata.codegen", "xsdata.formats.dataclass.generator", "xsdata.formats.dataclass.filters", "xsdata.formats.mixins", "xsdata.models.config", "xsdata.models.xsd",
          "xsdata.models.mixins", "xsdata.models.wsdl", "xsdata.models.dtd", "xsdata.utils.text", "xsdata.utils.package", "xsdata.utils.graphs", "xsdata.utils.collections")
@@ -128,15 +128,17 @@ def identifier_contexts_sanitised(ctx: Ctx) -> None:
         direct = any(isinstance(c, ast.Call) and unparse(c.func) == "self.safe_name" for c in ast.walk(m.node))
         ctx.ob(f"Filters.{fname} goes through safe_name", direct, at=m, construct=f"{fname} -> safe_name", msg="naming filter bypasses the reserved-word / leading-digit handling")
     sn = fcls.methods["safe_name"]
-    a = asrc(sn)
-    ctx.ob("safe_name: empty names fall back to the prefix", A("ifnot_:;returnself.safe_name(_,_,_,**_)") in a, at=sn, construct="empty name", msg="empty identifier")
-    ctx.ob("safe_name: names whose alnum slug is empty or does not start with a letter get the prefix", A("_=text.alnum(_);ifnot_ornot_[0].isalpha():;returnself.safe_name(f'{_}_{_}',_,_,**_)") in a, at=sn, construct="leading digit",
+    gs = build_cfg(sn.node)
+    recs = [r for r in gs.returns() if isinstance(r.ast.value, ast.Call) and unparse(r.ast.value.func) == "self.safe_name"]
+    deps = {r.id: control_deps(sn, r) for r in recs}
+    empty = [r for r in recs if any(isinstance(t.ast, ast.Name) and t.ast.id == "name" and not pol for _x, pol, t in deps[r.id])]
+    ctx.ob("safe_name: empty names fall back to the prefix", bool(empty), at=sn, construct="empty name", msg="empty identifier")
+    digit = [r for r in recs if any(("text.alnum(_)" in txt and ".isalpha()" in txt and not pol) or (txt == "text.alnum(_)" and not pol) for txt, pol, _t in [*deps[r.id], *entry_conditions(sn, r)])]
+    ctx.ob("safe_name: names whose alnum slug is empty or does not start with a letter get the prefix", bool(digit), at=sn, construct="leading digit",
            msg="identifiers starting with a digit / punctuation")
-    res_names = [tgt.id for st, tgt, v in stores(sn.node) if isinstance(tgt, ast.Name) and isinstance(v, ast.Call) and unparse(v.func) == "name_case"]
-    chk = [c for c in calls_in(sn.node) if unparse(c.func) == "text.is_reserved"]
-    last = sn.node.body[-1]
-    ok = len(res_names) == 1 and len(chk) == 1 and unparse(chk[0].args[0]) == res_names[0] and isinstance(last, ast.Return) and unparse(last.value) == res_names[0] \
-        and A("iftext.is_reserved(_):;returnself.safe_name(f'{_}_{_}',_,_,**_)") in a
+    reserved = [r for r in recs if any(txt == "text.is_reserved(_(_,**_))" and pol for txt, pol, _t in deps[r.id])]  # name_case (a parameter) applied to the name
+    plain = [leaf for r in gs.returns() if r not in recs for leaf, _ in flows(sn, r, r.ast.value)]
+    ok = bool(reserved) and bool(plain) and all(isinstance(v, ast.Call) and unparse(v.func) == "name_case" for v in plain)
     ctx.ob("safe_name: the case-converted result (what is returned) is the value checked against the reserved words", ok, at=sn, construct="reserved check",
            msg="the reserved-word test looks at another value than the identifier that is returned (e.g. 'Class' -> class_case 'class' is not caught)")
     tm = ctx.repo.module("xsdata.utils.text")
@@ -181,12 +183,20 @@ def duplicate_handling_keyed_like_naming(ctx: Ctx) -> None:
     ctx.ob("DEFAULT_ATTR_NAME is 'value', the default safe_prefix of field names", isinstance(dv, ast.Constant) and dv.value == "value" and "value" in unparse(ctx.repo.cls("xsdata.models.config:GeneratorConventions").node),
            at=cm, node=dv, construct="fallback name", msg="fallback name and safe prefix differ")
     sl = ctx.repo.cls("xsdata.codegen.models:Attr").methods.get("slug")
-    ctx.ob("Attr.slug = text.alnum(name)", sl is not None and A("returntext.alnum(self.name)") in asrc(sl), at=sl or rd, construct="attr slug", msg="slug computed differently from safe_name's slug")
+    ctx.ob("Attr.slug = text.alnum(name)", sl is not None and [unparse(v) for v in return_values(sl.node)] == ["text.alnum(self.name)"], at=sl or rd, construct="attr slug", msg="slug computed differently from safe_name's slug")
     rc = ctx.repo.func("xsdata.codegen.handlers.rename_duplicate_classes:RenameDuplicateClasses.run")
-    ctx.ob("duplicate classes are grouped by text.alnum(name | qname)", A("_=collections.group_by(self.container,lambdax:text.alnum(_(x)))") in asrc(rc), at=rc, construct="class grouping key", msg="class grouping key changed")
+    gb = [c for c in calls_in(rc.node) if call_name_of(c) == "group_by" and len(c.args) == 2]
+    ok = bool(gb) and all(isinstance(c.args[1], ast.Lambda) and isinstance(c.args[1].body, ast.Call) and call_name_of(c.args[1].body) == "alnum" for c in gb)
+    ctx.ob("duplicate classes are grouped by text.alnum(name | qname)", ok, at=rc, construct="class grouping key", msg="class grouping key changed")
     nq = ctx.repo.func("xsdata.codegen.handlers.rename_duplicate_classes:RenameDuplicateClasses.next_qname")
-    a = asrc(nq)
-    ctx.ob("next_qname searches for a slug that is not reserved and reserves it", A("if_notin_:;_.add(_);return_") in a and A("_=text.alnum(_ifself.use_nameselse_)") in a, at=nq, construct="free name search", msg="suffix search can return a taken name")
+    gq = build_cfg(nq.node)
+    rsv = names_from_calls(nq.node, ("get_reserved",)) | {"reserved"}
+    memb = [t for t in gq.nodes if t.kind == "test" and isinstance(t.ast, ast.Compare) and len(t.ast.ops) == 1 and isinstance(t.ast.ops[0], (ast.In, ast.NotIn)) and unparse(t.ast.comparators[0]) in rsv]
+    slugged = bool(memb) and all(any(f.startswith("text.alnum(") for f in forms(nq, t, t.ast.left)) for t in memb)
+    adds = [n for n in gq.stmts() if any(isinstance(c.func, ast.Attribute) and c.func.attr == "add" and unparse(c.func.value) in rsv for c in node_calls(n))]
+    rets = [r for r in gq.returns() if r.ast.value is not None]
+    ok = slugged and bool(adds) and bool(rets) and all(any(gq.only_if(r.id, t.id, isinstance(t.ast.ops[0], ast.NotIn)) for t in memb) and gq.must_pass(gq.entry, r.id, [a_.id for a_ in adds]) for r in rets)
+    ctx.ob("next_qname searches for a slug that is not reserved and reserves it before returning", ok, at=nq, construct="free name search", msg="suffix search can return a taken name")
     ur = ctx.repo.func("xsdata.codegen.handlers.rename_duplicate_classes:RenameDuplicateClasses.update_references")
     g = build_cfg(ur.node)
     set_q = [g.node_of(st) for st, tgt, v in stores(ur.node) if unparse(tgt).endswith(".qname")]
